@@ -33,6 +33,7 @@ import (
 	"verifmc/internal/ops"
 	"verifmc/internal/vnode"
 	"verifmc/internal/xs"
+	"verifmc/props/c10"
 )
 
 var M = ops.Op{K: "M"}
@@ -265,6 +266,15 @@ func rewardedUpToCursor(n *vnode.Node, v *ledger.View, c types.Address, st db.DB
 			z, q := emissionShare(c, uint64(e))
 			wantZ.Add(wantZ, z)
 			wantQ.Add(wantQ, q)
+		}
+		// once the bridge-and-liquidity spork is enforced the programme no longer mints an epoch's share to the contract
+		// itself (it credits the liquidity stakers, bounded by the per-epoch emission oracle): the lower bound is the
+		// pre-spork method's
+		if active, err := n.Chain.GetFrontierMomentumStore().IsSporkActive(types.BridgeAndLiquiditySpork); err == nil && active {
+			if mintedZ.Cmp(wantZ) > 0 || mintedQ.Cmp(wantQ) > 0 {
+				return "liquidity:minted-more-than-the-rewarded-epochs-share", fmt.Sprintf("the liquidity contract minted %v ZNN / %v QSR to itself, the shares of epochs 0..%d add up to %v / %v", mintedZ, mintedQ, cursor, wantZ, wantQ)
+			}
+			return "", ""
 		}
 		if mintedZ.Cmp(wantZ) < 0 || mintedQ.Cmp(wantQ) < 0 {
 			key := "liquidity:cursor-advanced-past-an-unrewarded-epoch"
@@ -518,6 +528,22 @@ func percentageAlphabet() []ops.Op {
 	}
 }
 
+// liquidityBases / liquidityAlphabet: the liquidity programme after the bridge-and-liquidity spork (C10's set-up operation
+// BLSetup: spork, guardians, token tuples): liquidity stakes of several users in both tokens, created during an epoch, after
+// its end but before it is settled (the settlement waits RewardTimeLimit), and later; what the contract credits for an
+// epoch stays within the liquidity share of the emission
+func liquidityBases() []hx.Base {
+	return []hx.Base{{Name: "liquidity-staked", Prefix: []ops.Op{{K: "BLSetup"}, {K: "LiqStake", A: 1, V: 30, B: 1}, {K: "LiqStake", A: 3, V: 2000, B: 1, T: 1}, M, M}}}
+}
+
+func liquidityAlphabet() []ops.Op {
+	return []ops.Op{M, {K: "M3"}, {K: "M", V: 1},
+		{K: "LiqStake", A: 2, V: 20, B: 2},
+		{K: "LiqStake", A: 2, V: 1500, B: 1, T: 1},
+		{K: "LiqCancel", A: 1, B: 0},
+	}
+}
+
 func outageAlphabet() []ops.Op {
 	return []ops.Op{M, {K: "M3"}, {K: "Call", S: "update-stake", A: 3}, {K: "Call", S: "stake-collect", A: 1}, {K: "Q"}}
 }
@@ -649,9 +675,13 @@ func runChecked(c *xs.Ctx, r *xs.Result) {
 		if err := json.Unmarshal(c.Replay, &rep); err != nil {
 			panic(err)
 		}
-		for _, b := range append(bases(), outageBases()...) {
+		for _, b := range append(append(bases(), outageBases()...), liquidityBases()...) {
 			if b.Name != rep.Base {
 				continue
+			}
+			if b.Name == liquidityBases()[0].Name {
+				c10.Setup()
+				configure()
 			}
 			n := vnode.New(vnode.Options{Dir: c.TempDir()})
 			for _, o := range b.Prefix {
@@ -702,5 +732,14 @@ func runChecked(c *xs.Ctx, r *xs.Result) {
 		e2.Depth = 3
 		depth = 3
 		e2.Run()
+	}
+	if !r.Incomplete {
+		// last: C10's set-up shrinks lock times of its own; this check's configuration is applied again on top
+		c10.Setup()
+		configure()
+		el := *e
+		el.Bases, el.Alphabet, el.SnapshotBases = liquidityBases(), liquidityAlphabet(), true
+		el.Run()
+		r.Count("liquidity_explorations", 1)
 	}
 }
